@@ -35,7 +35,7 @@ func BuildUnit(P *Program, key string, profile string, prop string) (*Unit, erro
 	e := &enc{P: P, S: newSorts(), famSort: map[string]string{}, profile: profile, prop: prop, notes: map[string]bool{}, trusted: map[string]bool{},
 		inlined: map[string]bool{}, callees: map[string]bool{}, unitName: key, names: map[string]int{}, globals: map[string]Term{},
 		funcRefs: map[string]Term{}, fnByRef: map[string]interface{}{}, logicals: map[string]TV{}, closByRef: map[string]*closureVal{},
-		inlineBusy: map[*ssa.Function]bool{}, rootFC: fc}
+		inlineBusy: map[*ssa.Function]bool{}, rootFC: fc, ghostEntry: map[string]Term{}, ghostTy: map[string]types.Type{}}
 	e.safetyProps = fc.Safety
 	e.inlineBusy[fn] = true
 	entryB := &baseNode{kind: baseEntry, memo: map[string]Term{}}
@@ -45,6 +45,15 @@ func BuildUnit(P *Program, key string, profile string, prop string) (*Unit, erro
 	e.assume(fmt.Sprintf("(> %s 0)", alloc0))
 	st := &State{base: entryB, fam: map[string]Term{}, alloc: alloc0, ghost: map[string]Term{}}
 
+	for _, k := range sortedKeys(P.Contracts.Funcs) {
+		if P.Contracts.Funcs[k].Logged {
+			c := e.declare("ghost:n:"+k, "Int")
+			e.famSort["ghost:n:"+k] = "Int"
+			e.ghostEntry["n:"+k] = c
+			st.ghost["n:"+k] = c
+		}
+	}
+	e.entryState = st.clone()
 	x := e.newFx(fn, 0)
 	x.top = true
 	var args []Term
@@ -142,7 +151,7 @@ func BuildUnit(P *Program, key string, profile string, prop string) (*Unit, erro
 		// frame
 		if mc := fc.Mod(profile); mc != nil {
 			if unk, why := e.hasUnknownFrame(exit, map[*baseNode]bool{}); unk {
-				e.oblig("frame", "frame:unknown-effects", mc.Props, exitReach, "false", "", "the function claims a frame but performs an effect with unknown frame: "+why)
+				e.oblig("frame", "frame:unknown-effects", nil, exitReach, "false", "", "the function claims a frame but performs an effect with unknown frame: "+why)
 			}
 			fams := append([]string{}, e.famOrder...)
 			for _, fam := range fams {
@@ -154,7 +163,7 @@ func BuildUnit(P *Program, key string, profile string, prop string) (*Unit, erro
 				if g == "true" {
 					continue
 				}
-				e.oblig("frame", "frame:"+fam, mc.Props, exitReach, g, "", "modifies "+mc.Text+" (family "+fam+")")
+				e.oblig("frame", "frame:"+fam, nil, exitReach, g, "", "modifies "+mc.Text+" (family "+fam+")")
 			}
 		}
 		// vacuity: the exit must be reachable under the preconditions and all assumptions
